@@ -409,7 +409,7 @@ def gen(rng, n, tier):
         ops += o
     if tier == "thorough":
         for lim in (None, 1, 2, 3, 5):
-            o, _ = closure(lim, list(range(8)))
+            o, _ = closure(lim, list(range(10)))
             ops += o
         ops += binary_pairs(rng, list(range(7)), 1 << 14)
     else:
